@@ -284,6 +284,10 @@ class Sim:
             raise RuntimeError("status callback failure (injected)")
         if self.status_cb_mode == "slow":
             await asyncio.sleep(0.05)
+        if self.status_cb_mode == "slow_connected" and state.name == "CONNECTED":
+            await asyncio.sleep(0.3)          # only the CONNECTED notification suspends (others return at once)
+        if self.status_cb_mode == "slow_disconnected" and state.name == "DISCONNECTED":
+            await asyncio.sleep(0.3)
 
     async def _on_receive(self, msg):
         self.recv_cb_calls += 1
